@@ -1,8 +1,10 @@
 (* C12 — entry points of the correspondence driver: dispatch on the case kind.
-   kind 0 = swarm scenario (format and monitor in SpecSwarm.v). *)
+   kind 0 = swarm scenario (format and monitor in SpecSwarm.v),
+   kind 1 = hole-punch decisions (SpecHP.v). *)
 From Coq Require Import List Arith ZArith Bool.
 From Verif Require Import lib.Wire c12.Model.
 From Verif Require Export c12.SpecSwarm.
+From Verif Require Import c12.SpecHP.
 Import ListNotations.
 Local Open Scope Z_scope.
 
@@ -10,6 +12,7 @@ Definition conform_case (l : list Z) : list Z :=
   if negb (nonneg l) then [ERR_MALFORMED; 0] else
   match l with
   | 0 :: da :: r => conform_swarm da r
+  | 1 :: r => conform_hp r
   | _ => [ERR_MALFORMED; 3]
   end.
 
@@ -17,5 +20,6 @@ Definition monitor_case (l : list Z) : list Z :=
   if negb (nonneg l) then [ERR_MALFORMED; 0] else
   match l with
   | 0 :: da :: r => monitor_swarm r
+  | 1 :: r => monitor_hp r
   | _ => [ERR_MALFORMED; 3]
   end.
